@@ -29,8 +29,11 @@ def const_block_program(rng, x, dt):
     nblocks = rng.randint(3, 14)
     i = 0
     for b in range(nblocks):
-        kind = rng.choice(["const", "const", "rnd", "const-partial"])
-        if kind == "rnd":
+        kind = rng.choice(["const", "const", "rnd", "const-partial"] + (["bpat", "bpat"] if w < 8 else []))
+        if kind == "bpat":
+            # every byte of the block is the same although the samples are not: must be stored, not taken for constant
+            ops.append({"op": "fsr", "sig": 1, "id": i, "n": nspd, "gen": ["bpat", rng.choice([0x10, 0x31, 0x73, 0xF5, 0x55, 0xAA, 0x01, 0x80, 0xFE, 0x0F])]})
+        elif kind == "rnd":
             ops.append({"op": "fsr", "sig": 1, "id": i, "n": nspd, "gen": ["rnd"]})
         elif kind == "const":
             ops.append({"op": "fsr", "sig": 1, "id": i, "n": nspd, "gen": ["const", rng.choice(vals)]})
